@@ -9,10 +9,14 @@ worlds (file systems + resolvers) / configurations; nothing here is a bounded ch
   Model   XV.Model.Entity   scanEntityRef / expandPERef counter logic + ReaderMgr::pushReader recursion test
           XV.Model.ExtGate  createReader / resolveSchemaGrammar / resolveSchemaLocation decision logic + interpreter
   Gen     XV.Gen.ErrCodes   XMLErrs enum values regenerated from framework/XMLErrorCodes.hpp
+          XV.Gen.ScannerCopy  the setters called by XMLScanner::setParseSettings + all setters XMLScanner.hpp declares
+  Model   XV.Model.CfgHistory  ordered configuration histories with scanner switches (useScanner / fgXercesScannerName)
 -/
 import XV.Lemmas.Entity
 import XV.Model.ExtGate
 import XV.Gen.ErrCodes
+import XV.Gen.ScannerCopy
+import XV.Model.CfgHistory
 import XV.Props.C19Uri
 namespace XV.Props.C19
 open XV.Spec.Entity XV.Model.Entity XV.Lemmas.Entity
@@ -351,6 +355,70 @@ theorem resolver_source_used (w : World) (cfg : XV.Spec.ExtGate.Cfg) (fuel : Nat
   | none => rw [hoff] at hsup; cases hsup
   | some r => exact ⟨r, by simp [Block.events, hoff, h1]⟩
 
+/-! ## 1d. configuration histories: a policy survives a scanner switch -/
+
+section history
+open XV.Model.CfgHistory
+
+theorem foldl_step (copied : List String) (n : String) (hn : n ∈ copied) (h : List Op) :
+    ∀ o : Obj, (h.foldl (step copied) o) n = (match lastSet h n with | some v => some v | none => o n) := by
+  induction h with
+  | nil => intro o; rfl
+  | cons op rest ih =>
+    intro o
+    simp only [List.foldl_cons, ih, lastSet]
+    cases hl : lastSet rest n with
+    | some v => rfl
+    | none =>
+      cases op with
+      | set m v =>
+        by_cases hm : m = n
+        · subst hm; simp [step]
+        · have hm' : ¬ n = m := fun e => hm e.symm
+          simp [step, hm, hm']
+      | useScanner => simp [step, hn]
+
+/-- **A setting whose setter is in the copy list of `setParseSettings` has, in the scanner that finally parses, the
+    last value the application set — wherever scanner switches occur in the configuration history.** -/
+theorem settings_survive (copied : List String) (h : List Op) (n : String) (hn : n ∈ copied) :
+    XV.Model.CfgHistory.run copied h n = lastSet h n := by
+  unfold XV.Model.CfgHistory.run
+  rw [foldl_step copied n hn h]
+  cases lastSet h n <;> rfl
+
+/-- the switches the property talks about (and the other fetch-relevant settings), by XMLScanner setter -/
+def policySetters : List String :=
+  ["setDisableDefaultEntityResolution", "setLoadExternalDTD", "setLoadSchema", "setDoSchema", "setDoNamespaces",
+   "setValidationScheme", "setSkipDTDValidation", "setSecurityManager", "setEntityHandler", "setStandardUriConformant",
+   "setDisallowDTD", "setExternalSchemaLocation", "setExternalNoNamespaceSchemaLocation",
+   "cacheGrammarFromParse", "useCachedGrammarInParse", "setIgnoredCachedDTD", "setHandleMultipleImports", "setExitOnFirstFatal"]
+
+/-- every policy setter has its copy line in the regenerated `setParseSettings` -/
+theorem policy_setters_copied : ∀ s ∈ policySetters, s ∈ XV.Gen.ScannerCopy.copied := by decide
+
+/-- setters of XMLScanner that are not user settings (per-parse state, plumbing set by the parser itself) -/
+def notUserSettings : List String :=
+  ["setAttrDupChkRegistry", "setHasNoDTD", "setParseSettings", "setRootElemName", "setURIStringPool", "setValidator"]
+
+/-- …and so has every other setter XMLScanner.hpp declares, except the six that are not user settings -/
+theorem every_setter_copied :
+    ∀ s ∈ XV.Gen.ScannerCopy.setters, s ∈ XV.Gen.ScannerCopy.copied ∨ s ∈ notUserSettings := by decide
+
+/-- **`policy_survives_scanner_switch`**: for every configuration history (any interleaving of policy settings and
+    scanner switches) the effective value of every policy switch is the last value set. -/
+theorem policy_survives_scanner_switch (h : List Op) :
+    ∀ s ∈ policySetters, XV.Model.CfgHistory.run XV.Gen.ScannerCopy.copied h s = lastSet h s :=
+  fun s hs => settings_survive _ h s (policy_setters_copied s hs)
+
+-- non-vacuity: policy set BEFORE the switch survives; a setting that is not copied would be lost
+example : XV.Model.CfgHistory.run XV.Gen.ScannerCopy.copied [.set "setDisableDefaultEntityResolution" 1, .useScanner, .set "setLoadSchema" 0, .useScanner]
+    "setDisableDefaultEntityResolution" = some 1 := by
+  rw [policy_survives_scanner_switch _ _ (by decide)]; decide
+example : XV.Model.CfgHistory.run ["setLoadSchema"] [.set "setDisableDefaultEntityResolution" 1, .useScanner] "setDisableDefaultEntityResolution" = none ∧
+    lastSet [.set "setDisableDefaultEntityResolution" 1, .useScanner] "setDisableDefaultEntityResolution" = some 1 := by decide
+
+end history
+
 /-! ### non-vacuity: a small world -/
 
 /-- main document: external subset "e.dtd", internal subset declaring the external entity g = "g.ent", the root element
@@ -388,5 +456,20 @@ example : trace (parse exWorld { exCfg with loadExternalDTD := false, loadSchema
     [.resolve ⟨.externalEntity, "g.ent", "main", "", ""⟩, .openFile "main|g.ent"] := by decide
 example : ∀ b ∈ (parse exWorld exCfg 20 "main" "main").log, b.1.offered = some b.1.rid :=
   fun b hb => (resolver_first exWorld exCfg 20 "main" "main" rfl b hb).1
+
+/-- a declaration produced by the replacement text of an INTERNAL parameter entity takes its base from the external
+    entity being read (here the external subset "main|d/e.dtd"), not from the in-memory reader and not from the document -/
+def exWorldPE : World where
+  answer := fun _ => none
+  defaultSource := fun b s => (.file (b ++ "|" ++ s), ⟨b ++ "|" ++ s, s⟩)
+  content := fun k =>
+    if k = "main" then some (.doc (some ⟨some ("d/e.dtd", ""), []⟩) [.refGE "v"])
+    else if k = "d/e.dtd" then some (.dtd [.declIntPE "decls" [.declGE "v" "e.ent" ""], .refPE "decls"])
+    else if k = "e.ent" then some (.ent [])
+    else none
+
+example : trace (parse exWorldPE { resolver := .xml } 20 "main" "main") =
+    [.resolve ⟨.externalEntity, "d/e.dtd", "main", "", ""⟩, .openFile "main|d/e.dtd",
+     .resolve ⟨.externalEntity, "e.ent", "main|d/e.dtd", "", ""⟩, .openFile "main|d/e.dtd|e.ent"] := by decide
 
 end XV.Props.C19
